@@ -36,8 +36,8 @@ let handle (line : string) : string =
       | Ok p -> adc_obs p
       | Err _ -> "err"
       | Panic -> "panic")
-  | [ "cb"; h ] -> cb_obs (cb_fifo (unhex h))
-  | [ "cbfeed"; hs ] -> cb_obs (cb_feed [] (List.map unhex (String.split_on_char ',' hs)))
+  | [ "cb"; h ] | [ "cblong"; h ] -> cb_obs (cb_fifo (unhex h))
+  | [ "cbfeed"; hs ] | [ "cbfeedlong"; hs ] -> cb_obs (cb_feed [] (List.map unhex (String.split_on_char ',' hs)))
   | _ -> "unknown-case"
 
 let () = main handle
